@@ -1170,7 +1170,14 @@ func (g *Graph) factsLattice() Lattice[Facts] {
 										n.setRel(token.EQL, lhs, rhs, true)
 										// the copy keeps what is known about the sign of the original (the original's
 										// name may be shadowed and its facts killed later)
-										if len(n.rel) > 1 && len(n.rel) < 40 {
+										mentioned := false
+										for k := range n.rel {
+											if mentions(k, rid.Name) && k != lhsStr+" == "+rid.Name {
+												mentioned = true
+												break
+											}
+										}
+										if mentioned && len(n.rel) > 1 && len(n.rel) < 40 {
 											if d := newDBM(g, n, nil); d.nonNeg(rhs) {
 												n.setRel(token.LSS, lhs, &ast.BasicLit{Kind: token.INT, Value: "0"}, false)
 											}
